@@ -177,7 +177,10 @@ fn pick_doc(t: &mut Tape, max_statements: u64) -> DocCase {
 fn output_choice(t: &mut Tape, tree: &mut Tree, ext: &str) -> Option<String> {
     match t.draw(8) {
         0..=2 => None,
-        3 | 4 => Some(format!("composed.{ext}")),
+        3 => Some(format!("composed.{ext}")),
+        // the name of the output file must not decide its format: text requested into a
+        // `.wasm` name, binary into a `.wat` name
+        4 => Some(format!("composed.{}", if ext == "wat" { "wasm" } else { "wat" })),
         5 => {
             tree.dir("out");
             Some(format!("out/result.{ext}"))
@@ -409,6 +412,13 @@ pub fn gen_plug(t: &mut Tape) -> Scenario {
                 }
             }
             (_, 1 | 2 | 3) => stems[t.index(stems.len())].to_string(),
+            (Some(_), 5) => {
+                // the previous `--plug` argument once more, verbatim (a glob overlapping an
+                // explicit path): by the documented naming it is a second plug of that stem
+                let again = plugs.last().cloned().unwrap_or_default();
+                plugs.push(again);
+                continue;
+            }
             _ => format!("plug{k}"),
         };
         previous_stem = Some(stem.clone());
